@@ -57,6 +57,9 @@ pub fn word_s(l: HL, w: &'static str) -> &'static str {
         "files" => ["files", "fichiers", "fichiers-ca", "files-e", "files-eng", "dateien", "files-x"][i],
         // a localized word that equals another locale's name
         "lang" => ["en", "fr", "fr-CA", "e", "eng", "de", "english"][(i + 1) % 7],
+        // two different words that coincide in some locales (fr, fr-CA, de) and not in others
+        "shop" => ["shop", "boutique", "magasin", "shop-e", "shop-eng", "laden", "shop-x"][i],
+        "store" => ["store", "boutique", "magasin", "store-e", "store-eng", "laden", "store-x"][i],
         o => o,
     }
 }
